@@ -934,3 +934,293 @@ Proof. intros H. apply (p_balanced_gen ops p_init 0); auto. Qed.
 Theorem polling_enabled_iff pool m :
   p_fn (p_run [PStart pool m]) = match m_method m with YieldWhile => None | _ => Some (single_threaded pool m) end.
 Proof. destruct m as [[| | |] a b c]; reflexivity. Qed.
+
+(* ------------------------------------------------------------------ compact_vectors in place *)
+Lemma set_nth_length {A} k (v : A) l : length (set_nth k v l) = length l.
+Proof. revert k. induction l as [|a l IH]; intros [|k]; cbn; auto. Qed.
+
+Lemma firstn_set_nth {A} k (v : A) l : k < length l -> firstn (S k) (set_nth k v l) = firstn k l ++ [v].
+Proof.
+  revert k. induction l as [|a l IH]; intros k H; cbn in H; [lia|].
+  destruct k as [|k]; [reflexivity|]. cbn [set_nth]. rewrite !firstn_cons, IH by lia. reflexivity.
+Qed.
+
+Lemma firstn_set_nth_le {A} j k (v : A) l : j <= k -> firstn j (set_nth k v l) = firstn j l.
+Proof.
+  revert j k. induction l as [|a l IH]; intros j k H; [destruct k; reflexivity|].
+  destruct k as [|k]; [replace j with 0 by lia; reflexivity|].
+  destruct j as [|j]; [reflexivity|]. cbn. rewrite IH by lia. reflexivity.
+Qed.
+
+Lemma skipn_set_nth {A} j k (v : A) l : k < j -> skipn j (set_nth k v l) = skipn j l.
+Proof.
+  revert j k. induction l as [|a l IH]; intros j k H; [destruct k; reflexivity|].
+  destruct j as [|j]; [lia|]. destruct k as [|k]; [reflexivity|]. cbn. apply IH. lia.
+Qed.
+
+Lemma skipn_nth_error {A} i (l : list A) x : nth_error l i = Some x -> skipn i l = x :: skipn (S i) l.
+Proof.
+  revert i. induction l as [|a l IH]; intros [|i] H; cbn in H; try discriminate.
+  - inversion H; reflexivity.
+  - cbn [skipn]. rewrite (IH _ H). reflexivity.
+Qed.
+
+Lemma nth_error_of_skipn {A} i (l l' : list A) : skipn i l = skipn i l' -> nth_error l i = nth_error l' i.
+Proof.
+  revert l l'. induction i as [|i IH]; intros l l' H.
+  - cbn in H. subst. reflexivity.
+  - destruct l as [|a l], l' as [|b l']; cbn in *; auto.
+    + rewrite <- (IH [] l' ); [destruct i; reflexivity|]. rewrite skipn_nil. assumption.
+    + rewrite (IH l []); [destruct i; reflexivity|]. rewrite skipn_nil. assumption.
+Qed.
+
+Lemma firstn_S_nth {A} i (l : list A) x : nth_error l i = Some x -> firstn (S i) l = firstn i l ++ [x].
+Proof.
+  revert i. induction l as [|a l IH]; intros [|i] H; cbn in H; try discriminate.
+  - inversion H; reflexivity.
+  - cbn [firstn app]. rewrite <- (IH _ H). reflexivity.
+Qed.
+
+Lemma first_null_shift i rs : first_null i rs = i + first_null 0 rs.
+Proof.
+  revert i. induction rs as [|[r|] rs IH]; intros i; cbn; try lia.
+  rewrite (IH (S i)), (IH 1). lia.
+Qed.
+
+Lemma first_null_le rs : first_null 0 rs <= length rs.
+Proof. induction rs as [|[r|] rs IH]; cbn; try lia. rewrite first_null_shift. lia. Qed.
+
+(* [compact] splits at the first null slot: the prefix before it is kept as it is *)
+Lemma compact_first_null rs : forall cs, length rs = length cs ->
+  compact rs cs =
+  (firstn (first_null 0 rs) rs ++ fst (compact (skipn (S (first_null 0 rs)) rs) (skipn (S (first_null 0 rs)) cs)),
+   firstn (first_null 0 rs) cs ++ snd (compact (skipn (S (first_null 0 rs)) rs) (skipn (S (first_null 0 rs)) cs))).
+Proof.
+  induction rs as [|[r|] rs IH]; intros [|c cs] L; cbn in L; try discriminate.
+  - reflexivity.
+  - cbn [first_null]. rewrite first_null_shift. cbn [plus]. cbn [compact firstn skipn].
+    rewrite (IH cs) at 1 by lia. reflexivity.
+  - cbn. destruct (compact rs cs); reflexivity.
+Qed.
+
+Lemma compact_app a : forall c b d, length a = length c ->
+  compact (a ++ b) (c ++ d) = (fst (compact a c) ++ fst (compact b d), snd (compact a c) ++ snd (compact b d)).
+Proof.
+  induction a as [|[r|] a IH]; intros [|x c] b d L; cbn in L; try discriminate.
+  - cbn. destruct (compact b d); reflexivity.
+  - cbn. rewrite (IH c b d) by lia. destruct (compact a c); reflexivity.
+  - cbn. apply IH. lia.
+Qed.
+
+(* the second loop: from (i, pos) the exit state, cut at the final write index, is the part already
+   written followed by the compaction of the part not yet read *)
+Lemma compact_loop_spec fuel : forall i pos rs cs,
+  length rs = length cs -> pos <= i -> fuel = length rs - i ->
+  let '(p, rs', cs') := compact_loop fuel i pos rs cs in
+  (firstn p rs', firstn p cs') =
+  (firstn pos rs ++ fst (compact (skipn i rs) (skipn i cs)), firstn pos cs ++ snd (compact (skipn i rs) (skipn i cs))).
+Proof.
+  induction fuel as [|f IH]; intros i pos rs cs L Hp Hf.
+  - cbn. rewrite (skipn_all2 rs), (skipn_all2 cs) by lia. cbn. rewrite !app_nil_r. reflexivity.
+  - cbn [compact_loop].
+    destruct (nth_error rs i) as [x|] eqn:Er; [|apply nth_error_None in Er; lia].
+    destruct (nth_error cs i) as [c|] eqn:Ec; [|apply nth_error_None in Ec; lia].
+    rewrite (skipn_nth_error _ _ _ Er), (skipn_nth_error _ _ _ Ec).
+    assert (Hi : i < length rs) by (apply nth_error_Some; congruence).
+    destruct x as [r|].
+    + specialize (IH (S i) (S pos) (set_nth pos (Some r) rs) (set_nth pos c cs)).
+      rewrite !set_nth_length in IH. specialize (IH L ltac:(lia) ltac:(lia)).
+      destruct (compact_loop f (S i) (S pos) _ _) as [[p rs'] cs']. rewrite IH.
+      rewrite !firstn_set_nth, !skipn_set_nth by lia. cbn [compact].
+      destruct (compact (skipn (S i) rs) (skipn (S i) cs)) as [a b]. cbn [fst snd].
+      rewrite <- !app_assoc. reflexivity.
+    + specialize (IH (S i) pos rs cs L ltac:(lia) ltac:(lia)).
+      destruct (compact_loop f (S i) pos rs cs) as [[p rs'] cs']. rewrite IH. reflexivity.
+Qed.
+
+Theorem compact_inplace_correct rs cs : length rs = length cs -> compact_inplace rs cs = compact rs cs.
+Proof.
+  intros L. unfold compact_inplace.
+  pose proof (compact_loop_spec (length rs - (first_null 0 rs + 1)) (first_null 0 rs + 1) (first_null 0 rs) rs cs
+                L ltac:(lia) eq_refl) as H.
+  destruct (compact_loop _ _ _ rs cs) as [[p rs'] cs']. rewrite H.
+  rewrite (compact_first_null rs cs L). replace (first_null 0 rs + 1) with (S (first_null 0 rs)) by lia.
+  reflexivity.
+Qed.
+
+Lemma Forall2_len {A B} (P : A -> B -> Prop) l1 l2 : Forall2 P l1 l2 -> length l1 = length l2.
+Proof. induction 1; cbn; congruence. Qed.
+
+(* the algorithm the code runs has the properties proved of the specification *)
+Theorem compact_inplace_preserves rs cs : Forall2 pairP rs cs ->
+  Forall2 pairP (fst (compact_inplace rs cs)) (snd (compact_inplace rs cs)) /\
+  somes (fst (compact_inplace rs cs)) = somes rs /\ ~ In None (fst (compact_inplace rs cs)).
+Proof.
+  intros H. rewrite compact_inplace_correct by (eapply Forall2_len; eassumption).
+  apply compact_pair; assumption.
+Qed.
+
+(* the PCompact step of the model (which uses [compact]) computes what the in-place loop computes *)
+Theorem compact_step_is_inplace sched :
+  let g := fst (m_run sched) in compact_inplace (vreq g) (vcb g) = compact (vreq g) (vcb g).
+Proof.
+  intros g. apply compact_inplace_correct. eapply Forall2_len. apply (vectors_paired sched).
+Qed.
+
+(* ---- intermediate states of the loop *)
+Lemma compact_trace_last fuel : forall i pos rs cs d,
+  snd (last (compact_trace fuel i pos rs cs) d) = compact_loop fuel i pos rs cs.
+Proof.
+  induction fuel as [|f IH]; intros i pos rs cs d; [reflexivity|].
+  cbn [compact_trace compact_loop].
+  destruct (nth_error rs i) as [[r|]|]; [| |reflexivity]; (destruct (nth_error cs i) as [c|]; [|reflexivity]).
+  - specialize (IH (S i) (S pos) (set_nth pos (Some r) rs) (set_nth pos c cs) d). rewrite <- IH.
+    destruct f; reflexivity.
+  - specialize (IH (S i) pos rs cs d). rewrite <- IH. destruct f; reflexivity.
+Qed.
+
+(* loop invariant, relative to the vectors (rs0, cs0) at loop entry and any slot relation P
+   that holds of them slot by slot:
+   - write index strictly behind the read index; sizes unchanged;
+   - every slot of the two vectors still satisfies P (a request is never next to a foreign callback:
+     both vectors are always written at the same index with values read at the same index);
+   - the written prefix is the compaction of the part read so far;
+   - everything from the read index on is untouched (so the loop never reads a slot it has overwritten or
+     moved from: [callbacks_[pos] = std::move(callbacks_[i])] leaves slot i moved-from, and i only grows) *)
+Definition compact_inv (P : option req -> req * req -> Prop) (rs0 : list (option req)) (cs0 : list (req * req))
+  (st : nat * (nat * list (option req) * list (req * req))) : Prop :=
+  let '(i, (pos, rs, cs)) := st in
+  pos < i /\ length rs = length rs0 /\ length cs = length cs0 /\
+  Forall2 P rs cs /\
+  (firstn pos rs, firstn pos cs) = compact (firstn i rs0) (firstn i cs0) /\
+  skipn i rs = skipn i rs0 /\ skipn i cs = skipn i cs0.
+
+Lemma Forall2_set_nth {A B} (P : A -> B -> Prop) k a b l1 l2 :
+  Forall2 P l1 l2 -> P a b -> Forall2 P (set_nth k a l1) (set_nth k b l2).
+Proof.
+  intros H Hab. revert k. induction H; intros k; cbn; [constructor|].
+  destruct k; constructor; auto.
+Qed.
+
+Lemma compact_snoc_some a c r x : length a = length c ->
+  compact (a ++ [Some r]) (c ++ [x]) = (fst (compact a c) ++ [Some r], snd (compact a c) ++ [x]).
+Proof. intros L. rewrite compact_app by assumption. reflexivity. Qed.
+
+Lemma compact_snoc_none a c x : length a = length c -> compact (a ++ [None]) (c ++ [x]) = compact a c.
+Proof. intros L. rewrite compact_app by assumption. cbn. rewrite !app_nil_r. destruct (compact a c); reflexivity. Qed.
+
+Lemma compact_trace_inv P rs0 cs0 (L0 : length rs0 = length cs0) fuel : forall i pos rs cs,
+  compact_inv P rs0 cs0 (i, (pos, rs, cs)) ->
+  Forall (compact_inv P rs0 cs0) (compact_trace fuel i pos rs cs).
+Proof.
+  induction fuel as [|f IH]; intros i pos rs cs I; cbn [compact_trace]; constructor; auto.
+  destruct I as (Hp & Lr & Lc & HP & Hpre & Sr & Sc).
+  destruct (nth_error rs i) as [x|] eqn:Er; [|constructor].
+  destruct (nth_error cs i) as [c|] eqn:Ec; [|destruct x; constructor].
+  assert (Er0 : nth_error rs0 i = Some x) by (rewrite <- Er; symmetry; apply nth_error_of_skipn; assumption).
+  assert (Ec0 : nth_error cs0 i = Some c) by (rewrite <- Ec; symmetry; apply nth_error_of_skipn; assumption).
+  assert (Hi : i < length rs) by (apply nth_error_Some; congruence).
+  assert (Lf : length (firstn i rs0) = length (firstn i cs0)) by (rewrite !firstn_length; lia).
+  assert (Sr' : skipn (S i) rs = skipn (S i) rs0).
+  { rewrite (skipn_nth_error _ _ _ Er), (skipn_nth_error _ _ _ Er0) in Sr. congruence. }
+  assert (Sc' : skipn (S i) cs = skipn (S i) cs0).
+  { rewrite (skipn_nth_error _ _ _ Ec), (skipn_nth_error _ _ _ Ec0) in Sc. congruence. }
+  inversion Hpre as [[Hp1 Hp2]].
+  destruct x as [r|]; apply IH; unfold compact_inv.
+  - rewrite !set_nth_length, !firstn_set_nth, !skipn_set_nth by lia.
+    rewrite (firstn_S_nth _ _ _ Er0), (firstn_S_nth _ _ _ Ec0), compact_snoc_some by assumption.
+    rewrite <- Hpre. cbn [fst snd].
+    repeat split; try assumption; try lia.
+    apply Forall2_set_nth; [assumption|]. eapply Forall2_nth; eassumption.
+  - rewrite (firstn_S_nth _ _ _ Er0), (firstn_S_nth _ _ _ Ec0), compact_snoc_none by assumption.
+    repeat split; try assumption; lia.
+Qed.
+
+Lemma compact_upto_first_null rs : forall cs, length rs = length cs ->
+  compact (firstn (S (first_null 0 rs)) rs) (firstn (S (first_null 0 rs)) cs) =
+  (firstn (first_null 0 rs) rs, firstn (first_null 0 rs) cs).
+Proof.
+  induction rs as [|[r|] rs IH]; intros [|c cs] L; cbn in L; try discriminate; try reflexivity.
+  cbn [first_null]. rewrite first_null_shift. cbn [plus]. rewrite !firstn_cons. cbn [compact].
+  rewrite (IH cs) by lia. reflexivity.
+Qed.
+
+(* the states of compact_vectors's second loop, started as the code starts it *)
+Theorem compact_inplace_aligned (P : option req -> req * req -> Prop) rs cs :
+  Forall2 P rs cs -> Forall (compact_inv P rs cs) (compact_inplace_trace rs cs).
+Proof.
+  intros H. pose proof (Forall2_len _ _ _ H) as L. unfold compact_inplace_trace.
+  apply compact_trace_inv; [assumption|]. unfold compact_inv.
+  replace (first_null 0 rs + 1) with (S (first_null 0 rs)) by lia.
+  rewrite compact_upto_first_null by assumption.
+  repeat split; try assumption; lia.
+Qed.
+
+Theorem compact_inplace_aligned_in (P : option req -> req * req -> Prop) rs0 cs0 :
+  Forall2 P rs0 cs0 ->
+  forall i pos rs cs, In (i, (pos, rs, cs)) (compact_inplace_trace rs0 cs0) ->
+  pos < i /\ length rs = length rs0 /\ length cs = length cs0 /\
+  Forall2 P rs cs /\
+  (firstn pos rs, firstn pos cs) = compact (firstn i rs0) (firstn i cs0) /\
+  skipn i rs = skipn i rs0 /\ skipn i cs = skipn i cs0.
+Proof.
+  intros H i pos rs cs Hin.
+  pose proof (compact_inplace_aligned P rs0 cs0 H) as F. rewrite Forall_forall in F.
+  exact (F _ Hin).
+Qed.
+
+Theorem compact_inplace_trace_last rs cs d :
+  snd (last (compact_inplace_trace rs cs) d) =
+  compact_loop (length rs - (first_null 0 rs + 1)) (first_null 0 rs + 1) (first_null 0 rs) rs cs.
+Proof. apply compact_trace_last. Qed.
+
+(* the fuel [size - i] is the exact iteration count: more fuel changes nothing (the loop has left the
+   vector), and with it the trace has one entry per loop head, the last one with read index = size *)
+Lemma compact_loop_fuel fuel : forall i pos rs cs,
+  length rs - i <= fuel -> compact_loop fuel i pos rs cs = compact_loop (length rs - i) i pos rs cs.
+Proof.
+  induction fuel as [|f IH]; intros i pos rs cs Hf.
+  - replace (length rs - i) with 0 by lia. reflexivity.
+  - destruct (length rs - i) as [|m] eqn:Em.
+    + cbn. destruct (nth_error rs i) eqn:Er; [|reflexivity].
+      assert (i < length rs) by (apply nth_error_Some; congruence). lia.
+    + cbn [compact_loop].
+      destruct (nth_error rs i) as [[r|]|]; [| |reflexivity]; (destruct (nth_error cs i) as [c|]; [|reflexivity]).
+      * rewrite IH by (rewrite set_nth_length; lia). rewrite set_nth_length. f_equal. lia.
+      * rewrite IH by lia. f_equal. lia.
+Qed.
+
+Theorem compact_inplace_fuel rs cs k :
+  let pos := first_null 0 rs in
+  compact_loop (length rs - (pos + 1) + k) (pos + 1) pos rs cs = compact_loop (length rs - (pos + 1)) (pos + 1) pos rs cs.
+Proof. intros pos. apply compact_loop_fuel. lia. Qed.
+
+Lemma compact_trace_length fuel : forall i pos rs cs,
+  length rs = length cs -> i + fuel <= length rs ->
+  length (compact_trace fuel i pos rs cs) = S fuel /\
+  fst (last (compact_trace fuel i pos rs cs) (0, (0, [], []))) = i + fuel.
+Proof.
+  induction fuel as [|f IH]; intros i pos rs cs L Hf; [cbn; split; [reflexivity|lia]|].
+  cbn [compact_trace].
+  destruct (nth_error rs i) as [x|] eqn:Er; [|apply nth_error_None in Er; lia].
+  destruct (nth_error cs i) as [c|] eqn:Ec; [|apply nth_error_None in Ec; lia].
+  destruct x as [r|].
+  - destruct (IH (S i) (S pos) (set_nth pos (Some r) rs) (set_nth pos c cs)) as [A B];
+      [rewrite !set_nth_length; assumption|rewrite set_nth_length; lia|].
+    cbn [length]. rewrite A. split; [reflexivity|].
+    replace (i + S f) with (S i + f) by lia. rewrite <- B. destruct f; reflexivity.
+  - destruct (IH (S i) pos rs cs L ltac:(lia)) as [A B].
+    cbn [length]. rewrite A. split; [reflexivity|].
+    replace (i + S f) with (S i + f) by lia. rewrite <- B. destruct f; reflexivity.
+Qed.
+
+(* if the vector has a null slot, the loop runs to the end of the vector: exit read index = size *)
+Theorem compact_inplace_runs_to_end rs cs :
+  length rs = length cs -> first_null 0 rs < length rs ->
+  length (compact_inplace_trace rs cs) = length rs - first_null 0 rs /\
+  fst (last (compact_inplace_trace rs cs) (0, (0, [], []))) = length rs.
+Proof.
+  intros L Hn. unfold compact_inplace_trace.
+  destruct (compact_trace_length (length rs - (first_null 0 rs + 1)) (first_null 0 rs + 1) (first_null 0 rs) rs cs L ltac:(lia)) as [A B].
+  rewrite A, B. lia.
+Qed.
